@@ -1,6 +1,8 @@
 (* C10 - pending commands: Next never blocks, resumes once, handlers run exactly once.
-   Partial: data races between the runner and handler goroutines and the real elapsed time of
-   <<wait>> are observed by the correspondence harness only (race detector, timers). *)
+   Partial: data races between the runner and handler goroutines are observed by the correspondence
+   harness only (race detector). For <<wait n>> the duration handed to time.Sleep is modelled and
+   bounded below (end of this file); that time.Sleep(d) returns no earlier than d later is the Go
+   runtime's contract, observed on real timers by family waits. *)
 From Coq Require Import List ZArith Bool.
 From YS Require Import Base.Sexp Yarn.Ast Yarn.Value Yarn.Eval Yarn.Runner Proofs.FlowProofs Proofs.SafetyProofs.
 Import ListNotations.
@@ -41,3 +43,31 @@ Theorem C10_stop_never_dispatched : forall s args,
   exec_command (EVal (VStr (STR "stop")) :: map EVal args) s = (CmdStop, s).
 Proof. exact stop_never_dispatched. Qed.
 Print Assumptions C10_stop_never_dispatched.
+
+(* ---------- <<wait n>>: the duration handed to time.Sleep ---------- *)
+From Coq Require Import Reals.
+From Flocq Require Import Core BinarySingleNaN.
+From YS Require Import Num.F64 Yarn.Timed Proofs.WaitProofs.
+
+(* for every finite n >= 0 (up to 2^62 ns) the sleep lasts at least n seconds, up to the rounding of
+   the one binary64 multiplication and the truncation to whole nanoseconds: fractional n included *)
+Theorem C10_wait_duration_at_least_n_seconds : forall n : f64,
+  is_finite n = true -> (0 <= B2R n)%R -> (B2R n * 1000000000 <= bpow radix2 62)%R ->
+  (0 <= wait_nanos n)%Z /\
+  (B2R n * 1000000000 * (1 - bpow radix2 (-53)) - 1 < IZR (wait_nanos n))%R.
+Proof. exact wait_nanos_lower_bound. Qed.
+Print Assumptions C10_wait_duration_at_least_n_seconds.
+
+(* a poll at instant t of a wait started at t0 answers "completed" only that much later *)
+Theorem C10_wait_not_reported_early : forall (n : f64) (t0 t : Z),
+  is_finite n = true -> (0 <= B2R n)%R -> (B2R n * 1000000000 <= bpow radix2 62)%R ->
+  wait_may_complete t0 n t = true ->
+  (B2R n * 1000000000 * (1 - bpow radix2 (-53)) - 1 < IZR (t - t0))%R.
+Proof. exact wait_not_reported_early. Qed.
+
+(* non-vacuity (and D11): 0.9 s, 0.0009 s and 2.01 s keep their fractions *)
+Example C10_wait_examples :
+  wait_nanos (of_bits 4606281698874543309) = 900000000%Z /\
+  wait_nanos (of_bits 4561440258104740754) = 900000%Z /\
+  wait_nanos (of_bits 4611708536425524756) = 2009999999%Z  (* 2.01: the product rounds just below, hence the "- 1" *).
+Proof. vm_compute. repeat split. Qed.
